@@ -50,6 +50,12 @@ class spmatrix:
         return {'csr': self.tocsr, 'csc': self.tocsc, 'coo': self.tocoo}[fmt]()
 
     def astype(self, t, casting='unsafe', copy=True):
+        try:
+            same = np.dtype(t) == self._dtype
+        except TypeError:
+            same = False
+        if not copy and same:
+            return self             # scipy hands back the very same object
         out = self.copy()
         try:
             kind = np.dtype(t).kind
